@@ -168,7 +168,7 @@ Proof.
   intros; unfold uts_retrying. pose proof (fun i f => bk_of_stg (t, route) _ _ (vs_upd_rec i f)) as H6.
   sw (Rbk_refl (t, route)) (Rbk_trans (t, route)) pleaf ltac:(first [leaf|apply H6]).
 Qed.
-Lemma bk_completion : forall t route evt ts idx ns, vpres (Rbk (t, route)) (uts_completion ev t route evt ts idx ns).
+Lemma bk_completion : forall t route evt ts idx ns o0, vpres (Rbk (t, route)) (uts_completion ev t route evt ts idx ns o0).
 Proof.
   intros; unfold uts_completion.
   pose proof (fun e' t' r' tr => bk_of_lt (t, route) _ _ (vlt_log_error e' t' r' tr)) as H1.
@@ -394,7 +394,7 @@ Proof. intros i ns. apply in_of_stg. unfold uts_setst, set_rec_status. destruct 
   apply vp_modws. intro; unfold Rstg; simpl; apply staged_update_rec. Qed.
 Lemma in_retrying : forall t route idx r ns, vpres (Rin X) (uts_retrying t route idx r ns).
 Proof. intros; unfold uts_retrying. pose proof (fun i f => in_of_stg _ _ (vs_upd_rec i f)) as H6. sw (Rin_refl X) (Rin_trans X) pleaf ltac:(first [leaf|apply H6]). Qed.
-Lemma in_completion : forall t route evt ts idx ns, vpres (Rin X) (uts_completion ev t route evt ts idx ns).
+Lemma in_completion : forall t route evt ts idx ns o0, vpres (Rin X) (uts_completion ev t route evt ts idx ns o0).
 Proof.
   intros; unfold uts_completion.
   pose proof (fun e' t' r' tr => in_of_lt _ _ (vlt_log_error e' t' r' tr)) as H1.
@@ -1409,7 +1409,7 @@ Proof.
   destruct (pre_machine_inv ev _ _ _ _ _ _ _ _ Hm) as [r0 [ns [c4 [c5 [Hr0 [Ens [_ [_ [_ [_ [_ [Ec [_ [_ [Hpo Hpn]]]]]]]]]]]]]]].
   destruct (tpe_provider _ _ _ _ Hpe Ens) as [name [Hn [_ Hname]]]. rewrite (Hname Hrun) in Hn.
   assert (Hsame : forall ctx b, po_compl p = Some (ctx, b) -> po_new p = po_old p).
-  { intros ctx b Hc. destruct (completion_inv ev _ _ _ _ _ _ _ _ _ Ec) as [[_ [X _]]|[Hcomp _]]; [rewrite X in Hc; discriminate|].
+  { intros ctx b Hc. destruct (completion_inv ev _ _ _ _ _ _ _ _ _ _ Ec) as [[_ [X _]]|[Hcomp _]]; [rewrite X in Hc; discriminate|].
     rewrite Hpn, Hpo, stepped_status. destruct ns as [x|]; [|reflexivity].
     rewrite stepped_status in Hcomp. rewrite (F_action_running_target _ _ Hn) in Hcomp. discriminate. }
   pose proof (prefix_def ev _ _ _ _ _ _ Ep) as [_ [_ Di]]. specialize (Di Hi).
